@@ -12,6 +12,9 @@ pub struct ManCase {
     pub spec: CmdSpec,
     /// (slot path, adversarial text) substitutions applied on top of `spec`
     pub subst: Vec<(String, String)>,
+    /// subcommand names of a line (`prog sub ...`) that the same `Command` value parses before the pages are rendered
+    #[serde(default)]
+    pub parsed_first: Option<Vec<String>>,
 }
 
 pub const ADVERSARIAL: &[&str] = &[
@@ -255,7 +258,48 @@ fn coverage(level: &CmdSpec, cmd: &clap::Command, page: &str, ctx: &mut Ctx) -> 
     let display = level.display_name.clone().unwrap_or_else(|| {
         cmd.get_display_name().map(|s| s.to_owned()).unwrap_or_else(|| level.name.clone())
     });
+    // the SYNOPSIS section alone (hidden positionals have no dash to tell them from ordinary words elsewhere)
+    let synopsis = {
+        let mut out = String::new();
+        let mut keep = false;
+        for line in page.lines() {
+            if let Some(title) = line.strip_prefix(".SH ") {
+                keep = title.trim_matches('"') == "SYNOPSIS";
+                continue;
+            }
+            if keep {
+                out.push_str(line);
+                out.push('\n');
+            }
+        }
+        plain(&out)
+    };
     for a in &level.args {
+        if a.hide && a.is_positional() {
+            let name = a.value_names.first().cloned().unwrap_or_else(|| a.id.clone());
+            // words that the synopsis holds for other reasons
+            let mut legit: Vec<String> = vec![level.name.clone(), display.clone()];
+            legit.extend(cmd.get_bin_name().map(|s| s.to_owned()));
+            legit.extend(level.subcommand_value_name.clone());
+            legit.extend(level.subcommand_help_heading.clone());
+            for o in level.args.iter().filter(|o| !o.hide) {
+                legit.extend(o.long.clone());
+                legit.push(o.id.clone());
+                legit.extend(o.value_names.iter().cloned());
+            }
+            let clash = legit.iter().any(|l| l.split(|c: char| !(c.is_alphanumeric() || c == '_' || c == '-')).any(|w| w == name) || has_token(l, &name));
+            if !clash && !name.is_empty() {
+                ensure!(
+                    !has_token(&synopsis, &name),
+                    "man:hidden-positional-shown",
+                    "hidden positional {:?} appears in the synopsis of {:?}\n{}",
+                    name,
+                    level.name,
+                    page
+                );
+                ctx.label("man:hidden-positional-checked");
+            }
+        }
         if a.hide {
             if let Some(l) = &a.long {
                 let visible_same = level.args.iter().any(|o| !o.hide && (o.long.as_ref() == Some(l)));
@@ -389,6 +433,13 @@ pub fn run_man(case: &ManCase, ctx: &mut Ctx) -> Verdict {
     }
     // ---- base: no panic, deterministic, coverage at every level
     let mut root = case.spec.to_clap();
+    // (a multicall command renames itself when it parses: what its pages are called afterwards is not this property's business)
+    if let Some(line) = case.parsed_first.as_ref().filter(|_| !case.spec.settings.multicall) {
+        // (the outcome of the parse is C01's business; the definition must still render afterwards)
+        let argv: Vec<String> = if case.spec.settings.no_binary_name { line.clone() } else { std::iter::once("prog".to_owned()).chain(line.iter().cloned()).collect() };
+        let _ = catch(std::panic::AssertUnwindSafe(|| root.try_get_matches_from_mut(argv).map(|_| ()).map_err(|_| ())));
+        ctx.label("rendered-after-a-parse");
+    }
     root.build();
     fn walk(level: &CmdSpec, cmd: &clap::Command, ctx: &mut Ctx) -> Verdict {
         let page = match render(cmd) {
@@ -547,7 +598,20 @@ impl Property for Man {
             let text = (*t.pick(ADVERSARIAL)).to_owned();
             subst.push((path, text));
         }
-        ManCase { spec, subst }
+        // a quarter of the cases render from a definition that has already parsed a line walking down the tree
+        let parsed_first = if t.chance(1, 4) {
+            let mut line = Vec::new();
+            let mut level = &spec;
+            while !level.subs.is_empty() && !t.chance(1, 4) {
+                let sc = &level.subs[t.choose(level.subs.len())];
+                line.push(sc.name.clone());
+                level = sc;
+            }
+            Some(line)
+        } else {
+            None
+        };
+        ManCase { spec, subst, parsed_first }
     }
     fn run(&self, case: &ManCase, ctx: &mut Ctx) -> Verdict {
         run_man(case, ctx)
